@@ -826,6 +826,46 @@ def expand_hist(case):
 
 # ------------------------------------------------------------------------------------------------------
 
+# ------------------------------------------------------------------------------------------------------
+# stage 'trajectory': the clause "the rate is zero for non-positive driving force" on every recorded step of real
+# precipitation runs (the model keeps a copy of the previous state while computing the next one, so a skipped
+# calculation can leave the previous rate in place)
+
+def run_trajectory(case):
+    import numpy as np
+    from mc import precip
+    precip.TEMPS.setdefault('jump', lambda tf: (lambda t: 700.0 if t < 0.3 * tf else 1150.0))
+    precip.TEMPS.setdefault('jumpdown', lambda tf: (lambda t: 1150.0 if t < 0.3 * tf else 700.0))
+    r = precip.run_model(case, hooks=False)
+    viol = []
+    if r['model'] is None:
+        return {'viol': [], 'states': 0, 'outcome': 'build-error', 'nontrivial': False}
+    d = r['model'].pData
+    neg = d.drivingForce <= 0
+    bad = neg & ((d.nucRate != 0) | (d.Rnuc != 0))
+    if np.any(bad):
+        n, p = [int(v) for v in np.argwhere(bad)[0]]
+        viol.append({'sig': 'trajectory/nucleation-with-nonpositive-driving-force/%s' % case['system'],
+                     'msg': 'cfg=%r: step %d (t=%r, T=%r): driving force %r but nucleation rate %r, nucleation radius %r; %d such steps'
+                     % (case, n, d.time[n], d.temperature[n], d.drivingForce[n, p], d.nucRate[n, p], d.Rnuc[n, p], int(bad.any(axis=1).sum()))})
+    if not np.all(np.isfinite(d.nucRate)) or np.any(d.nucRate < 0):
+        viol.append({'sig': 'trajectory/nucleation-rate-not-finite-nonnegative/%s' % case['system'], 'msg': 'cfg=%r' % (case,)})
+    both = bool(np.any(neg)) and bool(np.any(d.nucRate > 0))
+    return {'viol': viol, 'states': int(d.n), 'transitions': int(d.n), 'nontrivial': both,
+            'outcome': ('neg+nuc' if both else ('neg' if np.any(neg) else 'pos')) + ('' if r['error'] is None else '/' + r['error'][0])}
+
+
+def trajectory_cases(quick):
+    out = []
+    for system in ('bin', 'tern'):
+        for temp in (['jump', 'heat', 'updown'] if quick else ['jump', 'jumpdown', 'heat', 'cool', 'updown', 'hrh']):
+            for it in ('euler', 'rk4'):
+                for nph in ([1] if quick else [1, 2]):
+                    out.append({'system': system, 'temp': temp, 'it': it, 'nphases': nph, 'tf': 2.0 if 'jump' in temp else 20.0,
+                                'constraints': {'dtScale': 0.05}, 'max_steps': 1500 if quick else 6000, 'record': False})
+    return out
+
+
 def run(ctx):
     quick = ctx.quick
     kfr = K_FRACS_Q if quick else K_FRACS_T
@@ -880,6 +920,7 @@ def run(ctx):
     depth = 3 if quick else 4
     for base in ('barrier', 'precipitate'):
         ctx.bfs('history-' + base, 'checks.c14:expand_hist', [], depth, base=base)
+    ctx.product_run('trajectory', 'checks.c14:run_trajectory', trajectory_cases(quick), chunksize=1)
     ctx.bounds = {'k_over_kmax': kfr + K_FRACS_NEAR, 'sites': SITES, 'rates_levels': lv, 'dG': dgs,
                   'times': '0, 1e-9, tau*{1e-3,0.1,1,10,1e3}, 1e30, inf', 'incubation_levels': ilv,
                   'site_groups': len(groups), 'psd_profiles': PROFILES, 'psd_scales': SCALES,
